@@ -151,8 +151,11 @@ Definition mismatches_parse := mismatches ok_parse.
 (* ec_req: offset passed to ConsumePartition; ec_oldest / ec_newest: what the broker answers to the offset
    queries; ec_started: None if ConsumePartition failed with ErrOffsetOutOfRange, else the offset of the
    first fetch request; ec_complete: the reader consumed until the end of the log *)
+(* ec_kafka: Config.Version; ec_reqs: (FetchRequest.Version, FetchRequest.Isolation) of the fetch requests the broker
+   decoded (distinct values) *)
 Record ecase := { ec_cfg : cfg; ec_log : list sbatch; ec_req : Z; ec_oldest : Z; ec_newest : Z;
-                  ec_started : option Z; ec_complete : bool; ec_delivered : list cmsg }.
+                  ec_started : option Z; ec_complete : bool; ec_delivered : list cmsg;
+                  ec_kafka : kversion; ec_reqs : list (Z * Z) }.
 
 Fixpoint prefixb (a b : list cmsg) : bool :=
   match a, b with
@@ -164,6 +167,7 @@ Fixpoint prefixb (a b : list cmsg) : bool :=
 Definition ok_e2e (a : ecase) : bool :=
   wf_logb (ec_log a) &&
   option_eqb Z.eqb (choose_start (ec_req a) (ec_oldest a) (ec_newest a)) (ec_started a) &&
+  forallb (pair_zeqb (fetch_request_fields (ec_kafka a) (read_committed (ec_cfg a)))) (ec_reqs a) &&
   match ec_started a with
   | None => match ec_delivered a with [] => true | _ => false end
   | Some s =>
